@@ -566,7 +566,194 @@ def extract_exception_maps(repo, parents):
     return L
 
 
-SECTIONS = [extract_models, extract_pool, extract_timeouts, extract_schemes, extract_exception_maps]
+
+# ---------------------------------------------------------------------------------------------
+# C12 / C13 / C14: HTTP/2 bookkeeping expressions and the ConnectionNotAvailable sites
+# ---------------------------------------------------------------------------------------------
+
+def _lean_bool_expr(node, names, ints=()):
+    """Python truthiness expression over natural-number names -> Lean Bool expression"""
+    if isinstance(node, ast.BoolOp):
+        op = " && " if isinstance(node.op, ast.And) else " || "
+        return "(" + op.join(_lean_bool_expr(v, names, ints) for v in node.values) + ")"
+    if isinstance(node, ast.UnaryOp) and isinstance(node.op, ast.Not):
+        return "(!" + _lean_bool_expr(node.operand, names, ints) + ")"
+    if isinstance(node, ast.Name) and node.id in names:
+        return f"decide ({names[node.id]} ≠ 0)"
+    if isinstance(node, ast.Compare) and len(node.ops) == 1:
+        ops = {ast.Gt: ">", ast.GtE: "≥", ast.Lt: "<", ast.LtE: "≤", ast.Eq: "=", ast.NotEq: "≠"}
+        if type(node.ops[0]) in ops:
+            def term(n):
+                if isinstance(n, ast.Name) and n.id in names:
+                    return names[n.id]
+                if isinstance(n, ast.Constant) and isinstance(n.value, int) and not isinstance(n.value, bool) and n.value >= 0:
+                    return str(n.value)
+                raise ExtractError(f"term not recognised: {ast.unparse(n)}")
+            return f"decide ({term(node.left)} {ops[type(node.ops[0])]} {term(node.comparators[0])})"
+    raise ExtractError(f"boolean expression not recognised: {ast.unparse(node)}")
+
+
+SEND_CALLS = ("_send_request_headers", "_send_request_body", "_send_event", "_send_stream_data", "_send_end_stream", "handle_async_request")
+
+
+def extract_h2(repo, parents):
+    out = []
+    tree = _parse(repo, "httpcore/_async/http2.py")
+    cls = "AsyncHTTP2Connection"
+    # ---- GOAWAY rule ---------------------------------------------------------------------------
+    fn = _find_func(tree, "_receive_events", cls=cls)
+    raises = [n for n in ast.walk(fn) if isinstance(n, ast.If) and any(isinstance(b, ast.Raise) and "ConnectionNotAvailable" in ast.unparse(b)
+                                                                      for b in n.body)]
+    if len(raises) != 1:
+        raise ExtractError("_receive_events: exactly one `if ...: raise ConnectionNotAvailable()` expected")
+    rule = raises[0]
+    assigns = {ast.unparse(t): ast.unparse(a.value) for a in ast.walk(fn) if isinstance(a, ast.Assign) for t in a.targets}
+    if assigns.get("last_stream_id") != "self._connection_terminated.last_stream_id":
+        raise ExtractError("_receive_events: last_stream_id is not read from the stored GOAWAY event")
+    expr = _lean_bool_expr(rule.test, {"stream_id": "sid", "last_stream_id": "last"})
+    guard_outer = [n for n in ast.walk(fn) if isinstance(n, ast.If) and rule in n.body]
+    if len(guard_outer) != 1 or ast.unparse(guard_outer[0].test) != "self._connection_terminated is not None":
+        raise ExtractError("_receive_events: the GOAWAY rule is not under `if self._connection_terminated is not None`")
+    after = guard_outer[0].body[guard_outer[0].body.index(rule) + 1:]
+    if len(after) != 1 or not isinstance(after[0], ast.Raise) or "RemoteProtocolError" not in ast.unparse(after[0]):
+        raise ExtractError("_receive_events: the GOAWAY rule is not followed by `raise RemoteProtocolError(...)`")
+    out.append(f"/-- `_receive_events`, GOAWAY stored: `if {ast.unparse(rule.test)}: raise ConnectionNotAvailable()` else RemoteProtocolError;")
+    out.append("`sid = 0` stands for `stream_id is None` (both falsy) -/")
+    out.append(f"def goawayRetry (sid last : Nat) : Bool := {expr}")
+    # ---- flow-control wait loop ---------------------------------------------------------------
+    fn = _find_func(tree, "_wait_for_outgoing_flow", cls=cls)
+    loops = [n for n in fn.body if isinstance(n, ast.While)]
+    if len(loops) != 1:
+        raise ExtractError("_wait_for_outgoing_flow: one while loop expected")
+    loop = loops[0]
+    want_pre = ["local_flow: int = self._h2_state.local_flow_control_window(stream_id)",
+                "max_frame_size: int = self._h2_state.max_outbound_frame_size", "flow = min(local_flow, max_frame_size)"]
+    pre = [ast.unparse(n) for n in fn.body if not isinstance(n, (ast.While, ast.Return, ast.Expr))]
+    if pre != want_pre:
+        raise ExtractError(f"_wait_for_outgoing_flow: preamble not recognised: {pre}")
+    body = [ast.unparse(n) for n in loop.body]
+    want_body = ["await self._receive_events(request)", "local_flow = self._h2_state.local_flow_control_window(stream_id)",
+                 "max_frame_size = self._h2_state.max_outbound_frame_size", "flow = min(local_flow, max_frame_size)"]
+    if body != want_body:
+        raise ExtractError(f"_wait_for_outgoing_flow: loop body not recognised (both the window and the frame size must be re-read): {body}")
+    if not (isinstance(fn.body[-1], ast.Return) and ast.unparse(fn.body[-1].value) == "flow"):
+        raise ExtractError("_wait_for_outgoing_flow: does not return flow")
+    t = loop.test
+    if not (isinstance(t, ast.Compare) and ast.unparse(t.left) == "flow" and len(t.ops) == 1 and ast.unparse(t.comparators[0]) == "0"):
+        raise ExtractError(f"_wait_for_outgoing_flow: loop test not recognised: {ast.unparse(t)}")
+    ops = {ast.LtE: "≤", ast.Eq: "=", ast.Lt: "<"}
+    if type(t.ops[0]) not in ops:
+        raise ExtractError(f"_wait_for_outgoing_flow: loop test not recognised: {ast.unparse(t)}")
+    out.append(f"/-- `_wait_for_outgoing_flow`: `flow = min(local window, max frame size)`, re-read after every `_receive_events`, `while {ast.unparse(t)}` -/")
+    out.append(f"def flowWaits (flow : Int) : Bool := decide (flow {ops[type(t.ops[0])]} 0)")
+    fn = _find_func(tree, "_send_stream_data", cls=cls)
+    want = ["while data:\n    max_flow = await self._wait_for_outgoing_flow(request, stream_id)\n    chunk_size = min(len(data), max_flow)\n"
+            "    chunk, data = (data[:chunk_size], data[chunk_size:])\n    self._h2_state.send_data(stream_id, chunk)\n"
+            "    await self._write_outgoing_data(request)"]
+    got = [ast.unparse(n) for n in fn.body if not isinstance(n, ast.Expr)]
+    if got != want:
+        raise ExtractError(f"_send_stream_data: body not recognised: {got}")
+    out.append("/-- `_send_stream_data` takes `min(len(data), flow)` bytes per DATA frame until the chunk is sent -/")
+    out.append("def sendTakesMinLenFlow : Bool := true")
+    # ---- credit -------------------------------------------------------------------------------
+    fn = _find_func(tree, "_receive_response_body", cls=cls)
+    acks = [n for n in ast.walk(fn) if isinstance(n, ast.Call) and ast.unparse(n.func) == "self._h2_state.acknowledge_received_data"]
+    if len(acks) != 1 or [ast.unparse(a) for a in acks[0].args] != ["amount", "stream_id"]:
+        raise ExtractError("_receive_response_body: acknowledge_received_data(amount, stream_id) not found exactly once")
+    amt = [ast.unparse(a.value) for a in ast.walk(fn) if isinstance(a, ast.Assign) and ast.unparse(a.targets[0]) == "amount"]
+    if len(amt) != 1:
+        raise ExtractError("_receive_response_body: `amount = ...` not found exactly once")
+    out.append(f"/-- `_receive_response_body` acknowledges `{amt[0]}` per DataReceived event -/")
+    out.append("def ackUsesFlowControlledLength : Bool := " + ("true" if amt[0] == "event.flow_controlled_length" else "false"))
+    # ---- stream slots ---------------------------------------------------------------------------
+    fn = _find_func(tree, "handle_async_request", cls=cls)
+    src_lines = {}
+    for n in ast.walk(fn):
+        txt = None
+        if isinstance(n, ast.Assign) and ast.unparse(n.targets[0]) == "self._max_streams":
+            src_lines["init_max"] = (n.lineno, _const(n.value))
+        if isinstance(n, ast.Await) and ast.unparse(n.value) == "self._max_streams_semaphore.acquire()":
+            src_lines.setdefault("acquires", []).append(n.lineno)
+        if isinstance(n, ast.Call) and ast.unparse(n.func) == "self._h2_state.get_next_available_stream_id":
+            src_lines["stream_id"] = n.lineno
+    if "init_max" not in src_lines or "stream_id" not in src_lines or len(src_lines.get("acquires", [])) != 2:
+        raise ExtractError("handle_async_request: slot bookkeeping statements not recognised")
+    fn2 = _find_func(tree, "_send_connection_init", cls=cls)
+    local_max = None
+    for n in ast.walk(fn2):
+        if isinstance(n, ast.Dict):
+            for k, v in zip(n.keys, n.values):
+                if ast.unparse(k).endswith("MAX_CONCURRENT_STREAMS"):
+                    local_max = _const(v)
+    if local_max is None:
+        raise ExtractError("_send_connection_init: local MAX_CONCURRENT_STREAMS not found")
+    out.append("/-- `_max_streams` right after the connection preface; the local MAX_CONCURRENT_STREAMS setting -/")
+    out.append(f"def h2InitialMaxStreams : Nat := {src_lines['init_max'][1]}")
+    out.append(f"def h2LocalMaxStreams : Nat := {local_max}")
+    out.append("/-- the request takes its stream slot before it reserves a stream id -/")
+    out.append("def slotBeforeStreamId : Bool := " + ("true" if max(src_lines["acquires"]) < src_lines["stream_id"] else "false"))
+    fn3 = _find_func(tree, "_receive_remote_settings_change", cls=cls)
+    txt = ast.unparse(fn3)
+    for frag in ["new_max_streams = min(max_concurrent_streams.new_value, self._h2_state.local_settings.max_concurrent_streams)",
+                 "if new_max_streams and new_max_streams != self._max_streams:",
+                 "while new_max_streams > self._max_streams:\n                await self._max_streams_semaphore.release()\n                self._max_streams += 1",
+                 "while new_max_streams < self._max_streams:\n                await self._max_streams_semaphore.acquire()\n                self._max_streams -= 1"]:
+        if frag not in txt:
+            raise ExtractError(f"_receive_remote_settings_change: not recognised, missing `{frag.splitlines()[0]}`")
+    out.append("/-- `_receive_remote_settings_change` has the shape modelled by `H2.Slots.settings` (release up, acquire down, 0 ignored) -/")
+    out.append("def settingsChangeShapeKnown : Bool := true")
+    # ---- every `raise ConnectionNotAvailable()` -------------------------------------------------
+    rows = []
+    for mod in ("connection", "connection_pool", "http11", "http2", "http_proxy", "socks_proxy", "interfaces"):
+        t = _parse(repo, f"httpcore/_async/{mod}.py")
+        for clsname, f in _func_defs(t):
+            qual = (clsname + "." if clsname else "") + f.name
+            first_send = min([n.lineno for n in ast.walk(f) if isinstance(n, ast.Call) and isinstance(n.func, ast.Attribute)
+                              and n.func.attr in SEND_CALLS] + [10 ** 9])
+            for n in ast.walk(f):
+                if isinstance(n, ast.Raise) and n.exc is not None and "ConnectionNotAvailable" in ast.unparse(n.exc):
+                    is_rule = (mod == "http2" and n.lineno in [b.lineno for b in rule.body])
+                    before = f.name == "handle_async_request" and n.lineno < first_send and not _in_handler_after(f, n, first_send)
+                    rows.append(f'("{mod}", "{qual}", {"true" if before else "false"}, '
+                                f'{"true" if is_rule else "false"})')
+    out.append("/-- every `raise ConnectionNotAvailable()` in `_async/*.py`: (module, function, it precedes every statement of the function that")
+    out.append("sends request bytes, it is the GOAWAY rule above) -/")
+    out.append("def cnaSites : List (String × String × Bool × Bool) := " + lean_list(rows))
+    # ---- the pool's retry loop --------------------------------------------------------------------
+    t = _parse(repo, "httpcore/_async/connection_pool.py")
+    f = _find_func(t, "handle_async_request", cls="AsyncConnectionPool")
+    loops = [n for n in ast.walk(f) if isinstance(n, ast.While)]
+    if len(loops) != 1:
+        raise ExtractError("pool.handle_async_request: one loop expected")
+    tries = [n for n in loops[0].body if isinstance(n, ast.Try)]
+    if len(tries) != 1 or len(tries[0].handlers) != 1 or not tries[0].orelse or not isinstance(tries[0].orelse[0], ast.Break):
+        raise ExtractError("pool.handle_async_request: `try: send / except X: retry / else: break` not recognised")
+    h = tries[0].handlers[0]
+    names = [ast.unparse(e) for e in (h.type.elts if isinstance(h.type, ast.Tuple) else [h.type])]
+    if any(isinstance(x, (ast.Raise, ast.Break, ast.Return)) for x in ast.walk(h)):
+        raise ExtractError("pool.handle_async_request: the retry handler leaves the loop")
+    for nme in names:
+        if nme not in parents:
+            raise ExtractError(f"pool.handle_async_request: retries on unknown class {nme}")
+    out.append("/-- the exception classes on which the pool sends the request again -/")
+    out.append("def poolRetriesOn : List Exc := " + lean_list([f".{x}" for x in names]))
+    return out
+
+
+def _in_handler_after(fn, node, first_send):
+    """is `node` inside an except handler / finally of a try statement whose body contains a send call?"""
+    for t in ast.walk(fn):
+        if isinstance(t, ast.Try):
+            body_sends = any(isinstance(n, ast.Call) and isinstance(n.func, ast.Attribute) and n.func.attr in SEND_CALLS
+                             for b in t.body for n in ast.walk(b))
+            if body_sends:
+                for part in list(t.handlers) + list(t.finalbody):
+                    if any(n is node for n in ast.walk(part)):
+                        return True
+    return False
+
+
+SECTIONS = [extract_models, extract_pool, extract_timeouts, extract_schemes, extract_exception_maps, extract_h2]
 
 
 def generate(repo):
